@@ -17,10 +17,10 @@
 (***************************************************************************)
 EXTENDS Integers, Sequences, FiniteSets, TLC, Json
 
-CONSTANTS Procs,       \* subset of {"timer", "cad", "closelast", "writer", "open1", "open2", "viewbg"}
+CONSTANTS Procs,       \* subset of {"timer", "cad", "closelast", "writer", "open1", "open2", "viewbg", "ddoc"}
           StopFirst
 
-Locks == {"R", "M", "E", "F"}
+Locks == {"R", "M", "E", "F", "C"}      \* C: the mutex of the handle's collection object (taken by close() under M)
 
 A(l) == <<"acq", l>>
 Rl(l) == <<"rel", l>>
@@ -38,15 +38,17 @@ Program(p) ==
       [] p = "cad" ->       \* Bucket.CloseAndDelete
            IF StopFirst
            THEN <<G("closedelete.enter"), A("E"), X("stop"), Rl("E"), A("M"), G("closedelete.locked"),
-                  A("E"), Rl("E"), X("closedb"), A("R"), Rl("R"), Rl("M")>>
+                  A("E"), Rl("E"), A("C"), Rl("C"), X("closedb"), A("R"), Rl("R"), Rl("M")>>
            ELSE <<G("closedelete.enter"), A("M"), G("closedelete.locked"), A("E"), X("stop"), Rl("E"),
-                  X("closedb"), A("R"), Rl("R"), Rl("M")>>
+                  A("C"), Rl("C"), X("closedb"), A("R"), Rl("R"), Rl("M")>>
       [] p = "closelast" -> \* Bucket.Close of the last handle of an on-disk bucket
            <<G("op.start"), A("M"), Rl("M"), A("R"), A("E"), X("stop"), Rl("E"), X("closedb"), Rl("R"), G("close.unregistered")>>
       [] p = "writer" ->    \* a regular write: commit + post under F, then arm the timer
            <<G("op.start"), A("F"), A("M"), X("usedb-or-closed"), Rl("M"), G("post.before"), A("M"), Rl("M"), Rl("F"), A("E"), Rl("E")>>
       [] p \in {"open1", "open2"} -> \* OpenBucket of a bucket that is on disk but not registered
            <<G("op.start"), A("R"), Rl("R"), G("open.cachemiss"), G("open.beforeregister"), A("R"), X("register"), Rl("R")>>
+      [] p = "ddoc" ->      \* PutDDoc through the same handle: one transaction under M (it takes no other lock before M)
+           <<G("op.start"), G("txn.enter"), A("M"), X("usedb-or-closed"), Rl("M")>>
       [] p = "viewbg" ->    \* the background index update of a view query with stale=updateAfter
            <<G("view.updateafter"), A("M"), X("usedb-or-closed"), Rl("M")>>
       [] OTHER -> <<>>
